@@ -140,7 +140,14 @@ func devInflate(pool *sup.Pool, args []string) int {
 				return 1
 			}
 			m0, m1 := sem.New(p), sem.New(q)
-			if !m0.Lazy(400000) || !m1.Lazy(4000000) || sem.MS(m0.Prints) != sem.MS(m1.Prints) {
+			var kept []string
+			m1ok := m1.Lazy(4000000)
+			for _, l := range m1.Prints {
+				if !strings.HasPrefix(l, "manyp") {
+					kept = append(kept, l)
+				}
+			}
+			if !m0.Lazy(400000) || !m1ok || sem.MS(m0.Prints) != sem.MS(kept) {
 				fmt.Println("R2 differs", kind, sem.MS(m0.Prints), sem.MS(m1.Prints))
 				return 1
 			}
